@@ -2899,22 +2899,10 @@ func (is IndexSet) MeasurementTagKeyValuesByExpr(auth query.FineAuthorizer, name
 			}
 			defer vitr.Close()
 
-			// If no authorizer present then return all values.
-			if query.AuthorizerIsOpen(auth) {
-				for {
-					val, err := vitr.Next()
-					if err != nil {
-						return nil, err
-					} else if val == nil {
-						break
-					}
-					results[ki] = append(results[ki], string(val))
-				}
-				continue
-			}
-
-			// Authorization is present — check all series with matching tag values
-			// and measurements for the presence of an authorized series.
+			// Check all series with matching tag values and measurements for the
+			// presence of a series that has not been deleted and, if authorization
+			// is present, that is authorized. An index may keep a tag value whose
+			// series have all been dropped.
 			for {
 				val, err := vitr.Next()
 				if err != nil {
@@ -2939,6 +2927,11 @@ func (is IndexSet) MeasurementTagKeyValuesByExpr(auth query.FineAuthorizer, name
 					}
 
 					if se.SeriesID == 0 {
+						break
+					}
+
+					if query.AuthorizerIsOpen(auth) {
+						results[ki] = append(results[ki], string(val))
 						break
 					}
 
